@@ -49,7 +49,8 @@ type c19Src struct {
 	id      netip.Addr
 	as      uint32
 	peer    bool // configured neighbour
-	addPath bool // ADD-PATH receive negotiated
+	addPath bool // ADD-PATH receive negotiated for SOME families: see addPathFor
+	apOdd   bool // ... for the families at odd positions of c19Families (else: at even positions)
 	as4     bool // 4-octet AS capability received
 }
 
@@ -66,6 +67,37 @@ var c19Sources = []c19Src{
 	{name: "p1-twin-id", addr: netip.MustParseAddr("10.0.0.4"), id: netip.MustParseAddr("2.2.2.2"), as: 65002},
 	{name: "p1-mapped", addr: netip.MustParseAddr("::ffff:10.0.0.2"), id: netip.MustParseAddr("7.7.7.7"), as: 65002},
 	{name: "ghost-same-as", addr: netip.MustParseAddr("10.0.0.10"), id: netip.MustParseAddr("9.9.9.10"), as: 65009},
+	// ADD-PATH receive for exactly the families p2 does NOT have it for (and vice versa), so that
+	// whatever family a table walk meets first, one of the two is on the "other" setting later
+	{name: "p4-addpath-odd", addr: netip.MustParseAddr("10.0.0.5"), id: netip.MustParseAddr("8.8.8.8"), as: 4200000002, peer: true, addPath: true, apOdd: true, as4: true},
+}
+
+// ADD-PATH receive is negotiated per (peer, family): p2 has it for ipv4 unicast / multicast /
+// labelled / VPN and EVPN, p4 for the ipv6 ones and FlowSpec, everybody else for none
+func (s c19Src) addPathFor(fam bgp.Family) bool {
+	if !s.addPath {
+		return false
+	}
+	for i, f := range c19Families {
+		if f.fam == fam {
+			return (i%2 == 1) == s.apOdd
+		}
+	}
+	return false
+}
+
+// what the harness set up: does this source send path identifiers in this family (ground truth,
+// independent of any lookup the daemon makes)
+func c19ExpectAddPath(peer netip.Addr, fam bgp.Family) bool {
+	if !peer.IsValid() || peer == netip.IPv4Unspecified() {
+		return true // locally originated paths are dumped in the ADD-PATH records
+	}
+	for _, src := range c19Sources {
+		if src.peer && src.addr == peer {
+			return src.addPathFor(fam)
+		}
+	}
+	return false
 }
 
 func c19SrvHex(b []byte) string {
@@ -241,13 +273,12 @@ func c19StartServer(t *testing.T) *BgpServer {
 		src := src
 		if err := s.mgmtOperation(func() error {
 			p := s.neighborMap[src.addr]
-			mode := bgp.BGP_ADD_PATH_NONE
-			if src.addPath {
-				mode = bgp.BGP_ADD_PATH_RECEIVE
-			}
 			fm := map[bgp.Family]bgp.BGPAddPathMode{}
 			for _, f := range c19Families {
-				fm[f.fam] = mode
+				fm[f.fam] = bgp.BGP_ADD_PATH_NONE
+				if src.addPathFor(f.fam) {
+					fm[f.fam] = bgp.BGP_ADD_PATH_RECEIVE
+				}
 			}
 			p.fsm.familyMap.Store(fm)
 			p.fsm.lock.Lock()
@@ -363,14 +394,18 @@ func c19Round(t *testing.T, o *vOut, r *vRand, round int) {
 	}
 	var ledger []added
 	nPfx := 1 + r.intn(6)
-	if round == 0 {
-		nPfx = 4
+	if round%8 == 0 {
+		nPfx = 4 + r.intn(3)
 	}
 	for i := 0; i < nPfx; i++ {
 		// family: stratified over every family of the table, unicast a little more often
 		fam := c19Families[(round*7+i*3+r.intn(2))%len(c19Families)].fam
 		if r.chance(25) {
 			fam = []bgp.Family{bgp.RF_IPv4_UC, bgp.RF_IPv6_UC}[r.intn(2)]
+		}
+		if round%8 == 0 && i < 4 {
+			// two families, both ADD-PATH neighbours (opposite settings) in each of them
+			fam = []bgp.Family{bgp.RF_IPv4_UC, bgp.RF_IPv6_UC, bgp.RF_IPv6_MC, bgp.RF_IPv4_MC}[i]
 		}
 		v6 := fam.Afi() == bgp.AFI_IP6
 		nlri0, err := c19Nlri(r, fam)
@@ -388,9 +423,9 @@ func c19Round(t *testing.T, o *vOut, r *vRand, round int) {
 		case 2:
 			srcs = []int{1 + r.intn(len(c19Sources)-1)}
 		case 3:
-			srcs = []int{2, 1, 4}
+			srcs = []int{2, 1, 4, 10}
 			if r.chance(50) { // near-duplicate peers in one destination
-				srcs = [][]int{{5, 6}, {6, 5, 0}, {1, 7, 8}, {4, 9, 1}, {5, 6, 7, 8, 9}}[r.intn(5)]
+				srcs = [][]int{{5, 6}, {6, 5, 0}, {1, 7, 8}, {4, 9, 1}, {5, 6, 7, 8, 9}, {2, 10}, {2, 10, 1}, {10, 0}}[r.intn(8)]
 			}
 		default:
 			for j := range c19Sources {
@@ -402,10 +437,13 @@ func c19Round(t *testing.T, o *vOut, r *vRand, round int) {
 				srcs = []int{r.intn(len(c19Sources))}
 			}
 		}
+		if round%8 == 0 && i < 4 {
+			srcs = []int{2, 10}
+		}
 		for _, si := range srcs {
 			src := c19Sources[si]
 			nPaths := 1
-			if src.addPath {
+			if src.addPathFor(fam) {
 				nPaths = 1 + r.intn(3)
 			}
 			for k := 0; k < nPaths; k++ {
@@ -451,7 +489,7 @@ func c19Round(t *testing.T, o *vOut, r *vRand, round int) {
 				if src.addr.IsValid() {
 					p.PeerASN, p.PeerID, p.PeerAddress = src.as, src.id, src.addr
 				}
-				if src.addPath {
+				if src.addPathFor(fam) {
 					p.RemoteID = uint32(1 + k + 10*r.intn(3))
 				}
 				res, err := s.AddPath(apiutil.AddPathRequest{Paths: []*apiutil.Path{p}})
@@ -476,7 +514,7 @@ func c19Round(t *testing.T, o *vOut, r *vRand, round int) {
 		cls := "plain"
 		if w.path.IsLocal() {
 			cls = "local"
-		} else if w.peer == c19Sources[2].addr {
+		} else if c19ExpectAddPath(w.peer, w.path.GetFamily()) {
 			cls = "addpath"
 		}
 		kinds[k][cls] = true
@@ -589,15 +627,33 @@ func c19Round(t *testing.T, o *vOut, r *vRand, round int) {
 						fmt.Fprintf(&sb, " %d %d %d %s", e.PeerIndex, e.OriginatedTime, e.PathIdentifier, c19SrvHex(c19SrvAttrBytes(e)))
 					}
 					o.ask(sb.String(), "mrt.rib %d %d %s", st, b.Prefix.Len(), c19SrvHex(body))
-					apN := 0
-					if addPath {
-						apN = 1
-					}
-					o.ask(fmt.Sprint(int(st)), "mrt.subtype %d %d %d", fam.Afi(), fam.Safi(), apN)
 					for j, e := range b.Entries {
 						want := "none"
 						if int(e.PeerIndex) < len(peers) {
 							want = c19SrvPeerEnt(peers[e.PeerIndex])
+							// the subtype the model names for (family, THIS peer's ADD-PATH setting for
+							// THIS family) must be the subtype of the record the entry was put into
+							pe := peers[e.PeerIndex]
+							expAP, known := false, false
+							if pe.IpAddress == netip.IPv4Unspecified() && pe.AS == 0 {
+								expAP, known = true, true
+							}
+							for _, src := range c19Sources {
+								if src.addr.IsValid() && src.addr.WithZone("") == pe.IpAddress && src.id == pe.BgpId && src.as == pe.AS {
+									expAP, known = src.peer && src.addPathFor(fam), true
+								}
+							}
+							if known {
+								apN := 0
+								if expAP {
+									apN = 1
+								}
+								o.ask(fmt.Sprint(int(st)), "mrt.subtype %d %d %d", fam.Afi(), fam.Safi(), apN)
+								if expAP != addPath {
+									o.fail("mrt-dump-addpath-setting-mismatch", map[string]any{"family": fam.String(), "prefix": b.Prefix.String(), "peer": c19SrvPeerEnt(pe),
+										"peer_sends_path_ids_in_this_family": expAP, "record_subtype": int(st), "path_id_in_record": e.PathIdentifier})
+								}
+							}
 						}
 						o.ask(want, "mrt.attr %s %d %d %s %d", c19SrvHex(tabBody), st, b.Prefix.Len(), c19SrvHex(body), j)
 					}
@@ -698,6 +754,13 @@ func c19Round(t *testing.T, o *vOut, r *vRand, round int) {
 		for k, n := range gotPID {
 			if wantPID[k] < n {
 				o.fail("mrt-dump-path-id-differs", map[string]any{"dump_entry": k, "rib": ribDesc()})
+				break
+			}
+		}
+		// every path of a (peer, family) that sends path identifiers comes back with its path id
+		for _, w := range want {
+			if c19ExpectAddPath(w.peer, w.path.GetFamily()) && gotPID[w.key(true)] == 0 {
+				o.fail("mrt-dump-path-id-lost", map[string]any{"rib_path": w.key(true)})
 				break
 			}
 		}
